@@ -149,6 +149,8 @@ def generic_resolver(mf, crate_prefixes):
                 continue
             if self_ty is not None:
                 if f.nargs == 0:
+                    if self_ty in f.ret_ty and "impl at" in n and not n.endswith("#2"):
+                        out.append(n)
                     continue
                 p1 = f.locals.get(1, "")
                 if _base_type(p1) != self_ty and "impl at" in n:
